@@ -32,16 +32,67 @@ def single_def(cfg, st, name):
     return None
 
 
+DUAL_METHODS = {"argmax", "argmin", "sum", "mean", "max", "min", "prod", "cumsum", "reshape", "transpose", "dot", "copy", "squeeze", "ravel", "any", "all", "std", "var",
+                "clip", "round", "argsort", "sort", "nonzero", "flatten", "astype", "tolist"}
+AXIS_FIRST = {"argmax", "argmin", "sum", "mean", "max", "min", "prod", "cumsum", "any", "all", "std", "var", "argsort", "squeeze"}
+
+
+def normalise_calls(node):
+    """np.f(x, ...) -> x.f(...) for functions that exist as array methods; axis keyword -> first positional; np.logical_not(x) -> ~x;
+    np.flatnonzero(x) -> np.nonzero(x)[0]"""
+    import copy
+
+    class R(ast.NodeTransformer):
+        def visit_Call(self, n):
+            n = self.generic_visit(n)
+            f = n.func
+            if isinstance(f, ast.Attribute) and isinstance(f.value, ast.Name) and f.value.id in ("np", "numpy") and n.args:
+                if f.attr == "logical_not" and len(n.args) == 1:
+                    return ast.UnaryOp(op=ast.Invert(), operand=n.args[0])
+                if f.attr in DUAL_METHODS:
+                    n = ast.Call(func=ast.Attribute(value=n.args[0], attr=f.attr, ctx=ast.Load()), args=n.args[1:], keywords=n.keywords)
+            f = n.func
+            if isinstance(f, ast.Attribute) and f.attr in AXIS_FIRST and not n.args:
+                ax = [k for k in n.keywords if k.arg == "axis"]
+                if ax:
+                    n = ast.Call(func=f, args=[ax[0].value], keywords=[k for k in n.keywords if k.arg != "axis"])
+            return n
+    if isinstance(node, str):
+        node = ast.parse(node, mode="eval").body
+    return ast.fix_missing_locations(R().visit(copy.deepcopy(node)))
+
+
 def canon_equal(a, b):
-    """a, b: ast expressions (or source text). Equal as rational forms, else equal modulo commutativity."""
+    """a, b: ast expressions (or source text). Equal as rational forms, else equal modulo commutativity and modulo the
+    method / function spelling of numpy operations."""
     if isinstance(a, str):
         a = ast.parse(a, mode="eval").body
     if isinstance(b, str):
         b = ast.parse(b, mode="eval").body
     try:
-        return to_rat(a).equals(to_rat(b))
+        if to_rat(a).equals(to_rat(b)):
+            return True
     except (NotScalarArithmetic, ZeroDivisionError):
-        return canon(a) == canon(b)
+        pass
+    if canon(a) == canon(b):
+        return True
+    na, nb = normalise_calls(a), normalise_calls(b)
+    try:
+        if to_rat(na).equals(to_rat(nb)):
+            return True
+    except (NotScalarArithmetic, ZeroDivisionError):
+        pass
+    return canon(na) == canon(nb)
+
+
+def arg_reduce(call):
+    """(name, operand, axis expr or None) of x.argmax(k) / np.argmax(x, k) / np.argmax(x, axis=k) and friends, else None"""
+    if not isinstance(call, ast.Call):
+        return None
+    n = normalise_calls(call)
+    if isinstance(n, ast.Call) and isinstance(n.func, ast.Attribute) and n.func.attr in AXIS_FIRST:
+        return n.func.attr, n.func.value, (n.args[0] if n.args else None)
+    return None
 
 
 def cfg_node(cfg, node):
